@@ -191,12 +191,13 @@ def object_printer_model(ctx, rule):
     f = ctx.repo.func(P + "Parameters._pprint")
     problems, n = [], 0
     import itertools
-    for b_changed, name_kind, c_prec in itertools.product([False, True, "param-default"], ["auto", "explicit"], [None, 0.5]):
+    for b_changed, name_kind, c_prec, c_none in itertools.product([False, True, "param-default"], ["auto", "explicit"], [None, 0.5], [False, True]):
         mkv = lambda nm: Obj(nm, __eqclass__=nm)          # plain values: equal iff the same value
         default_b = mkv("signature_default_of_b")
         # "param-default": b holds the default its PARAMETER declares, which differs from the default in the constructor's signature:
         # values(onlychanged=True) does not list it, yet it must be printed, or the constructor's own default takes over on evaluation
-        vals = {"a": mkv("value_a"), "b": (mkv("value_b") if b_changed else default_b), "c": mkv("value_c"), "d": mkv("default_d"),
+        # c_none: c was changed to None (its default is something else): None is a value like any other and must be printed
+        vals = {"a": mkv("value_a"), "b": (mkv("value_b") if b_changed else default_b), "c": (None if c_none else mkv("value_c")), "d": mkv("default_d"),
                 "name": "Cls00012" if name_kind == "auto" else "my_name"}
         changed = {"a": vals["a"], "c": vals["c"]}
         if b_changed is True:
@@ -241,7 +242,8 @@ def object_printer_model(ctx, rule):
             raise AnalysisError("%s: Parameters._pprint is not interpretable precisely (%s)" % (rule, outs[0].notes[:2] if outs else "no outcome"))
         n += 1
         text = outs[0].value
-        desc = "Cls(a, b=<default>, **params) with a given, b %s, c changed, d unchanged, %s name" % (
+        desc = "Cls(a, b=<default>, **params) with a given, b %s, c changed" + (" to None" if c_none else "") + ", d unchanged, %s name"
+        desc = desc % (
             "changed" if b_changed is True else "at the default its Parameter declares (which is not the signature's default)" if b_changed else "at its default", "an auto-generated" if name_kind == "auto" else "an explicit")
         try:
             tree = ast.parse(text, mode="eval").body
@@ -260,7 +262,7 @@ def object_printer_model(ctx, rule):
             got.setdefault(["a", "b"][i] if i < 2 else "?", []).append(a)
         for k, v in kws:
             got.setdefault(k, []).append(v)
-        want = {"a": "V_a", "c": "V_c"}
+        want = {"a": "V_a", "c": "None" if c_none else "V_c"}
         if b_changed:
             want["b"] = "V_b"
         if name_kind == "explicit":
